@@ -628,6 +628,208 @@ def r8(ctx):
     ctx.require(n >= 1, "no walk over inner transactions found")
 
 
+# ---------------------------------------------------------------------- C33-R9: state-guarded transitions cover the declared prerequisites
+def _fn_body(fn_node):
+    body = list(fn_node.body)
+    if body and isinstance(body[0], ast.Expr) and isinstance(body[0].value, ast.Constant) and isinstance(body[0].value.value, str):
+        body = body[1:]
+    return body
+
+
+class _StateEval:
+    """Three-valued value (True / False / None = not a function of the state) of a condition of a SessionTransaction method
+    when `self._state` is a given SessionTransactionState member.  Comparisons of `self._state` with members (is / == / in,
+    either polarity, either operand order), not/and/or (Kleene), conditional expressions, and properties / argument-less
+    methods of the class whose body is a side-effect free boolean function (guard clauses, boolean locals) are understood."""
+
+    def __init__(self, cls, members):
+        self.cls = cls
+        self.members = set(members)
+        self.touched = False
+
+    def member(self, e):
+        d = dotted(e) if isinstance(e, (ast.Name, ast.Attribute)) else None
+        m = _short(d) if d else None
+        return m if m in self.members else None
+
+    def ev(self, e, s, env=None, depth=0):
+        env = env or {}
+        if isinstance(e, ast.Constant) and isinstance(e.value, bool):
+            return e.value
+        if isinstance(e, ast.Name):
+            return env.get(e.id)
+        if isinstance(e, ast.UnaryOp) and isinstance(e.op, ast.Not):
+            v = self.ev(e.operand, s, env, depth)
+            return None if v is None else not v
+        if isinstance(e, ast.BoolOp):
+            vals = [self.ev(v, s, env, depth) for v in e.values]
+            dom = not isinstance(e.op, ast.And)  # the dominating value: False for `and`, True for `or`
+            if any(v is dom for v in vals):
+                return dom
+            return None if any(v is None for v in vals) else (not dom)
+        if isinstance(e, ast.IfExp):
+            t = self.ev(e.test, s, env, depth)
+            if t is None:
+                a, b = self.ev(e.body, s, env, depth), self.ev(e.orelse, s, env, depth)
+                return a if a is b else None
+            return self.ev(e.body if t else e.orelse, s, env, depth)
+        if isinstance(e, ast.Compare) and len(e.ops) == 1:
+            op, l, r = e.ops[0], e.left, e.comparators[0]
+            if dotted(r) == "self._state" and isinstance(op, (ast.Is, ast.IsNot, ast.Eq, ast.NotEq)):
+                l, r = r, l
+            if dotted(l) == "self._state":
+                if isinstance(op, (ast.Is, ast.Eq, ast.IsNot, ast.NotEq)):
+                    m = self.member(r)
+                    if m is None:
+                        return None
+                    self.touched = True
+                    return (s == m) == isinstance(op, (ast.Is, ast.Eq))
+                if isinstance(op, (ast.In, ast.NotIn)) and isinstance(r, (ast.Tuple, ast.List, ast.Set)):
+                    ms = [self.member(x) for x in r.elts]
+                    if any(m is None for m in ms):
+                        return None
+                    self.touched = True
+                    return (s in ms) == isinstance(op, ast.In)
+            return None
+        # a property / argument-less method of the class that is a boolean function (of the state, possibly)
+        name = None
+        if isinstance(e, ast.Attribute) and dotted(e.value) == "self":
+            f = self.cls.methods.get(e.attr)
+            if f is not None and any(d.rsplit(".", 1)[-1] in ("property", "memoized_property", "ro_non_memoized_property") for d in f.decorators):
+                name = e.attr
+        elif isinstance(e, ast.Call) and not e.args and not e.keywords and isinstance(e.func, ast.Attribute) and dotted(e.func.value) == "self":
+            f = self.cls.methods.get(e.func.attr)
+            if f is not None and not f.decorators and [p for p in f.params] == ["self"]:
+                name = e.func.attr
+        if name is not None and depth < 3:
+            return self.run(_fn_body(self.cls.methods[name].node), s, depth + 1)
+        return None
+
+    def run(self, body, s, depth):
+        env = {}
+
+        class _Stop(Exception):
+            pass
+
+        def block(stmts):
+            for st in stmts:
+                if isinstance(st, ast.Pass) or (isinstance(st, ast.Expr) and isinstance(st.value, ast.Constant)):
+                    continue
+                if isinstance(st, ast.Return):
+                    return ("ret", self.ev(st.value, s, env, depth) if st.value is not None else None)
+                if isinstance(st, ast.If):
+                    t = self.ev(st.test, s, env, depth)
+                    if t is None:
+                        raise _Stop()
+                    r = block(st.body if t else st.orelse)
+                    if r is not None:
+                        return r
+                    continue
+                if isinstance(st, (ast.Assign, ast.AnnAssign)):
+                    tg = st.targets if isinstance(st, ast.Assign) else [st.target]
+                    if len(tg) == 1 and isinstance(tg[0], ast.Name) and st.value is not None:
+                        env[tg[0].id] = self.ev(st.value, s, env, depth)
+                        continue
+                raise _Stop()
+            return None
+
+        try:
+            r = block(body)
+        except _Stop:
+            return None
+        return r[1] if r is not None else None
+
+
+@R.rule("C33-R9", floor=2, template="T-GUARD",
+        desc="a transition of the state machine that a declared method performs under a test of the transaction's own state "
+             "(a `_state` store or a delegated declared call dominated by branch outcomes that are functions of self._state; "
+             "properties such as is_active, boolean locals and un-declared helper methods called on self are resolved) is skipped "
+             "only when the transaction already is in the state the transition establishes: evaluated for every declared "
+             "prerequisite state, e.g. rollback() performs the connection rollback + _restore_snapshot block from ACTIVE "
+             "and from PREPARED (a COMMIT that failed), and skips it only from DEACTIVE")
+def r9(ctx):
+    decl = declared_methods(ctx)
+    cls = ctx.index.cls(ST)
+    members = set(ctx.index.cls(ENUM).assigns)
+    ctx.require(len(members) >= 4, f"SessionTransactionState has only {sorted(members)}")
+    n_inst = 0
+    for name, (f, pres, to) in sorted(decl.items()):
+        if pres == "ANY":
+            continue
+        pre_states = [_short(p) for p in pres]
+        # (established state, [(resolved guard expr, polarity)], description, companions) per transition site, helpers followed
+        sites = []
+
+        def collect(fn_node, outer, depth, via=""):
+            g = ctx.cfg(fn_node)
+            bb = bool_binds(fn_node)
+
+            def guards_of(nid):
+                return outer + [(expand(t, bb), pol) for t, pol in g.edge_guards(nid)]
+
+            for nid in attr_store_nodes(g, "_state", None, None):
+                m = _short(dotted(g.node(nid).stmt.value) or "")
+                if m in members:
+                    sites.append((m, guards_of(nid), f"`{unparse(g.node(nid).stmt)}`{via}", nid, g))
+            for n in g.nodes:
+                if n.stmt is None or n.kind in ("with_exit", "handler", "join") or not isinstance(n.stmt, ast.stmt):
+                    continue
+                from ..astutil import own_exprs
+                for c in [c for e in own_exprs(n.stmt) for c in calls_in(e)]:
+                    if not (isinstance(c.func, ast.Attribute) and dotted(c.func.value) == "self" and c.func.attr in cls.methods):
+                        continue
+                    cn = c.func.attr
+                    if cn in decl:
+                        m = _short(decl[cn][2])
+                        if m in members:
+                            sites.append((m, guards_of(n.id), f"`self.{cn}()` (moves to {m}){via}", n.id, g))
+                    elif depth > 0 and cn != fn_node.name and cls.methods[cn].node is not f.node:
+                        h = cls.methods[cn]
+                        if any(isinstance(x, ast.Attribute) and x.attr == "_state" and isinstance(x.ctx, ast.Store) for x in ast.walk(h.node)):
+                            ctx.functions_analysed.add(h.key)
+                            collect(h.node, guards_of(n.id), depth - 1, f" in {cn}()")
+
+        collect(f.node, [], 1)
+        by_state: Dict[str, list] = {}
+        for s_ in sites:
+            by_state.setdefault(s_[0], []).append(s_)
+        for E, lst in sorted(by_state.items()):
+            ev = _StateEval(cls, members)
+            # per site: the prerequisite states in which some dominating branch outcome is certainly the other one
+            skipped, tests = [], set()
+            for m, guards, what, nid, g in lst:
+                sk = set()
+                for t, pol in guards:
+                    for s in pre_states:
+                        ev.touched = False
+                        v = ev.ev(t, s)
+                        if ev.touched:
+                            tests.add(("" if pol else "not ") + f"({unparse(t)})")
+                        if v is not None and v != pol:
+                            sk.add(s)
+                skipped.append(sk)
+            if not tests:
+                continue  # this transition does not depend on the state the method is entered in
+            n_inst += 1
+            everywhere = set.intersection(*skipped)
+            never = [s for s in pre_states if s != E and s in everywhere]
+            # what else rides on the same branch outcomes (for the message): private methods called under the first site's guards
+            m0, guards0, what0, nid0, g0 = lst[0]
+            gtxt = {(unparse(t), pol) for t, pol in g0.edge_guards(nid0)}
+            comp = sorted({c.func.attr for n in g0.nodes if n.kind == "stmt" and isinstance(n.stmt, ast.stmt)
+                           and gtxt and gtxt <= {(unparse(t), pol) for t, pol in g0.edge_guards(n.id)}
+                           for c in calls_in(n.stmt) if isinstance(c.func, ast.Attribute) and c.func.attr in cls.methods and c.func.attr.startswith("_")})
+            ctx.check(not never, f"{f.key}:reaches[{E}]",
+                      f"{name}() is declared for the states {pre_states}, but entered in {never} every site that establishes {E} "
+                      f"({'; '.join(sorted({x[2] for x in lst}))}) is skipped by {sorted(tests)}: the transition"
+                      + (f" and what is done with it ({', '.join(c + '()' for c in comp)})" if comp else "")
+                      + f" never happens for a transaction in {never}, which is not {E} itself"
+                      + ("; the snapshot is then never restored for that transaction: objects keep the state of the abandoned scope while the database has none of it"
+                         if "_restore_snapshot" in comp else ""),
+                      f"{len(lst)} site(s) establishing {E} under {sorted(tests)}; skipped only in {sorted(everywhere) or 'no'} prerequisite state(s)", f.loc)
+    ctx.require(n_inst >= 1, "no declared method performs a state transition under a test of its own state")
+
+
 @R.rule("C33-R5", floor=3, template="T-PATH",
         desc="close(): session._transaction / _nested_transaction re-linked and _state = CLOSED before after_transaction_end is dispatched")
 def r5(ctx):
